@@ -226,4 +226,37 @@ example : (watch [false, false, false, false] (some [-1, 1])).bind (fun fl => gr
 
 example : grad [true, true] (some [2]) = none := by decide
 
+/-! ### `grad_list`: one list per tensor, each of that tensor's order (operands of different orders included) -/
+
+theorem gradListNested_length (orders : List Nat) : (gradListNested orders).length = orders.length := by
+  simp [gradListNested]
+
+theorem gradListNested_get (orders : List Nat) (t : Nat) (ht : t < orders.length) :
+    (gradListNested orders)[t]? = some ((List.range orders[t]).map (fun k => (t, k))) := by
+  simp [gradListNested, ht]
+
+theorem gradListNested_inner_length (orders : List Nat) (t : Nat) (ht : t < orders.length) :
+    ∃ l, (gradListNested orders)[t]? = some l ∧ l.length = orders[t] ∧ ∀ k, k < orders[t] → l[k]? = some (t, k) := by
+  refine ⟨_, gradListNested_get orders t ht, by simp, ?_⟩
+  intro k hk
+  simp [hk]
+
+theorem gradListFlat_mem (orders : List Nat) (t k : Nat) :
+    (t, k) ∈ gradListFlat orders ↔ t < orders.length ∧ k < orders.getD t 0 := by
+  simp only [gradListFlat, gradListNested, List.mem_flatten, List.mem_map, List.mem_range]
+  constructor
+  · rintro ⟨l, ⟨t', ht', rfl⟩, hm⟩
+    simp only [List.mem_map, List.mem_range, Prod.mk.injEq] at hm
+    obtain ⟨k', hk', rfl, rfl⟩ := hm
+    exact ⟨ht', hk'⟩
+  · rintro ⟨ht, hk⟩
+    exact ⟨_, ⟨t, ht, rfl⟩, List.mem_map.mpr ⟨k, List.mem_range.mpr hk, rfl⟩⟩
+
+theorem gradListFlat_eq (orders : List Nat) : gradListFlat orders = (gradListNested orders).flatten := rfl
+
+/-- the situation of the clause: operands of orders 2 and 3 — two lists, of 2 and of 3 entries (not chunks of the first order) -/
+example : gradListNested [2, 3] = [[(0, 0), (0, 1)], [(1, 0), (1, 1), (1, 2)]] := by decide
+
+example : gradListFlat [1, 3, 2] = [(0, 0), (1, 0), (1, 1), (1, 2), (2, 0), (2, 1)] := by decide
+
 end TT.C15c
